@@ -612,6 +612,115 @@ func (s *sim) replacementOf(d *txDef, fee int64) *txDef {
 	return n
 }
 
+// txFrom builds a definition from explicit inputs (plus a never-existing parent when ghost is set).
+func (s *sim) txFrom(ins [][2]int, ghost bool, nOut int, fee int64) *txDef {
+	d := &txDef{lock: "0", ver: 1}
+	var total int64
+	for _, in := range ins {
+		v, _, ok := s.u.outInfo(in[0], in[1])
+		if !ok {
+			return nil
+		}
+		total += v
+		d.ins = append(d.ins, inDef{in[0], in[1], 0xffffffff, 'g'})
+	}
+	if ghost {
+		g := s.nextID
+		s.nextID++
+		d.ins = append(d.ins, inDef{g, 0, 0xffffffff, 'g'})
+	}
+	d.id = s.nextID
+	rest := total - fee
+	if ghost {
+		rest = 600000 * int64(nOut)
+	}
+	for i := 0; i < nOut; i++ {
+		d.outs = append(d.outs, outDef{value: rest / int64(nOut), kind: 'p'})
+	}
+	d.outs[0].value -= int64(d.id) // keep definitions distinct
+	s.u.defs[d.id] = d
+	s.u.build(d)
+	if s.seenHash[*d.tx.Hash()] {
+		delete(s.u.defs, d.id)
+		return nil
+	}
+	s.seenHash[*d.tx.Hash()] = true
+	d.fee, d.vsize, d.ssize, d.size, d.bits = s.u.facts(d, 2, s.pol.minRelayFee)
+	s.nextID = d.id + 1
+	s.defs = append(s.defs, d)
+	for _, in := range d.ins {
+		k := [2]int{in.txid, in.idx}
+		s.spentBy[k] = append(s.spentBy[k], d.id)
+	}
+	for i, ot := range d.outs {
+		s.outs = append(s.outs, gOut{d.id, i, ot.value, ot.kind, false, 0})
+	}
+	return d
+}
+
+// orphanDoubleSpends: orphans that double-spend an output which is NOT what they are waiting for; when
+// one of them is accepted through processOrphans the others (and their orphan redeemers) must go.
+func (s *sim) orphanDoubleSpends() {
+	r := s.r
+	free := s.unspentOuts(false)
+	if len(free) < 3 {
+		return
+	}
+	a, y := free[len(free)-1], free[len(free)-2]
+	P := s.txFrom([][2]int{{a.txid, a.idx}}, false, 2, 5000)
+	if P == nil {
+		return
+	}
+	O := s.txFrom([][2]int{{P.id, 0}, {y.txid, y.idx}}, false, 2, 5000)
+	if O == nil {
+		return
+	}
+	// rivals spend y too but wait for something else
+	var rivals []*txDef
+	for i := 0; i < 1+r.Intn(2); i++ {
+		if r.Bool() {
+			if d := s.txFrom([][2]int{{y.txid, y.idx}}, true, 1+r.Intn(2), 5000); d != nil {
+				rivals = append(rivals, d)
+			}
+		} else if d := s.txFrom([][2]int{{y.txid, y.idx}, {P.id, 1}}, true, 1, 5000); d != nil {
+			rivals = append(rivals, d)
+		}
+	}
+	var kids []*txDef
+	for _, rv := range rivals {
+		if r.Bool() {
+			if d := s.txFrom([][2]int{{rv.id, 0}}, false, 1, 5000); d != nil {
+				kids = append(kids, d)
+			}
+		}
+	}
+	order := append(append([]*txDef{O}, rivals...), kids...)
+	for i := len(order) - 1; i > 0; i-- {
+		j := r.Intn(i + 1)
+		order[i], order[j] = order[j], order[i]
+	}
+	for _, d := range order {
+		s.submit(d)
+	}
+	switch r.Intn(3) {
+	case 0:
+		s.submit(P)
+	case 1:
+		s.ops = append(s.ops, fmt.Sprintf("A:%d:1:0", P.id), fmt.Sprintf("O:%d:-", P.id))
+		s.sub[P.id] = true
+	default:
+		view := map[[2]int]gUtxo{}
+		for k, v := range s.utxo {
+			view[k] = v
+		}
+		if s.eligible(P, view) {
+			s.connect([]int{P.id}) // the parent arrives in a block
+		} else {
+			s.submit(P)
+		}
+	}
+}
+
 // scenario produces one history of about n steps.
 func (s *sim) scenario(n int, withBlocks bool) {
 	r := s.r
@@ -664,9 +773,13 @@ func (s *sim) scenario(n int, withBlocks bool) {
 			if d := s.randomDef(); d != nil {
 				s.ops = append(s.ops, fmt.Sprintf("O:%d:-", d.id))
 			}
-		case x < 72:
+		case x < 71:
 			if d := s.randomDef(); d != nil {
 				s.ops = append(s.ops, fmt.Sprintf("X:%d", d.id))
+			}
+		case x < 72:
+			if s.pol.maxOrphans >= 5 {
+				s.orphanDoubleSpends()
 			}
 		case x < 74:
 			s.ops = append(s.ops, fmt.Sprintf("G:%d", r.Intn(3)))
@@ -786,6 +899,21 @@ func (P) Generate(g0 *core.Gen) {
 			s.ops = append(s.ops, "T")
 			g.Case("rbf-limit", true, s.line())
 		}
+	}
+	for i := 0; i < g.N(40, 400); i++ {
+		r := g.R.Fork()
+		pol := randomPolicy(r)
+		pol.maxOrphans = 100
+		pol.maxOrphanSize = 100000
+		s := newSim(r, pol, 1)
+		s.baseChain(4 + r.Intn(3))
+		for k := 0; k < 1+r.Intn(3); k++ {
+			s.orphanDoubleSpends()
+			if r.Bool() {
+				s.ops = append(s.ops, "T")
+			}
+		}
+		g.Case("orphan-double-spends", len(s.defs) >= 3, s.line())
 	}
 	for i := 0; i < g.N(250, 2500); i++ {
 		r := g.R.Fork()
